@@ -17,6 +17,7 @@ func Seed(int64)                       {}
 func Install()                         {}
 func Set(*Perturb)                     {}
 func OnObserve(string, func(kv []any)) {}
+func OnPoint(map[string]func())        {}
 func Trace(bool) (uint64, int)         { return 0, 0 }
 func Hits() map[string]int64           { return map[string]int64{} }
 func Acted() int64                     { return 0 }
